@@ -36,7 +36,7 @@ func init() {
 	}})
 }
 
-var c15Placements = []string{"direct", "grouping-local", "grouping-other-module", "grouping-in-augment", "augment-other-module", "typedef-other-module",
+var c15Placements = []string{"in-a-submodule", "direct", "grouping-local", "grouping-other-module", "grouping-in-augment", "augment-other-module", "typedef-other-module",
 	// statements written in one module that land on a node defined in another one
 	"when-on-uses-of-foreign-grouping", "must-by-refine-of-foreign-grouping", "when-on-augment-of-other-module", "must-by-deviate-add-from-other-module",
 	// the same expression text written twice: in a grouping of the defining module and directly in the module that uses that grouping
@@ -112,6 +112,9 @@ func c15Build(placement, stmt, pu string, ex c15Expr, custom string) *c15Case {
 	if placement == "typedef-other-module" && stmt != "path" {
 		return nil
 	}
+	if placement == "in-a-submodule" && pu == "same-prefix-in-included-submodule" {
+		return nil // (the writer is a submodule itself)
+	}
 	switch placement {
 	case "when-on-uses-of-foreign-grouping", "when-on-augment-of-other-module":
 		if stmt != "when" {
@@ -151,8 +154,17 @@ func c15Build(placement, stmt, pu string, ex c15Expr, custom string) *c15Case {
 	case "when-on-uses-of-foreign-grouping", "must-by-refine-of-foreign-grouping":
 		writer, writerNS = use, nsUse
 		other = def
+	case "in-a-submodule":
+		// the statement is written in a submodule of the using module: prefixes are those of the submodule's
+		// own imports (and its belongs-to prefix), not those of the module that includes it
+		writer = yang.S("submodule", "c15-usub", yang.S("belongs-to", "c15-use", yang.S("prefix", "us")))
+		writerNS = nsUse
+		other = use
 	}
-	writerPrefix := writer.Find("prefix").Arg
+	writerPrefix := "us"
+	if writer.Kw == "module" {
+		writerPrefix = writer.Find("prefix").Arg
+	}
 	c.writerMods = []string{writer.Arg}
 	if placement == "grouping-other-module-plus-own-copy" {
 		c.writerMods = append(c.writerMods, "c15-use") // the second copy is written there
@@ -232,6 +244,11 @@ func c15Build(placement, stmt, pu string, ex c15Expr, custom string) *c15Case {
 	c.leafPath = []string{"top-use", "carrier"}
 	mods := []*yang.Stmt{def, use, mx, my}
 	switch placement {
+	case "in-a-submodule":
+		writer.Add(yang.S("container", "top-sub", yang.S("leaf", "name", yang.S("type", "string")), leaf))
+		use.Add(yang.S("include", "c15-usub"))
+		mods = append(mods, writer)
+		c.leafPath = []string{"top-sub", "carrier"}
 	case "direct":
 		useTop.Add(leaf)
 	case "grouping-local":
